@@ -673,7 +673,13 @@ func c08SCIONClient(r *simcore.Run, tp *simcore.Tape) map[string]any {
 	laddr, raddr := w.udpAddrs()
 	crafted := 0
 	hostile := true
+	c08LastReqTx = time.Time{}
 	w.onRouter = func(p *scionPkt) (bool, []byte) {
+		if p.toSrv && p.isUDP {
+			if q, ok := decodeNTP(p.pld); ok {
+				c08LastReqTx = ntp.TimeFromTime64(q.TransmitTime, time.Now())
+			}
+		}
 		if p.toSrv || !hostile || !tp.Bool(2, 3, "hostile?") {
 			return false, nil
 		}
@@ -698,7 +704,7 @@ func c08SCIONClient(r *simcore.Run, tp *simcore.Tape) map[string]any {
 				withAuth = []int{0, 4, 5, 27, 28, 29, 40}[tp.Intn(7, "authlen")]
 			}
 			if tp.Bool(2, 3, "tsopt") {
-				withTS = []int{0, 8, 15, 16, 17, 32, 63, 64, 65}[tp.Intn(9, "tslen")]
+				withTS = []int{0, 8, 15, 16, 17, 32, 63, 64, 65, 64, 64, 64}[tp.Intn(12, "tslen")]
 			}
 			return false, c08SCIONReply(tp, rp, withAuth, withTS)
 		case 5:
@@ -744,6 +750,10 @@ func c08SCIONClient(r *simcore.Run, tp *simcore.Tape) map[string]any {
 }
 
 // c08SCIONReply re-serialises a reply with chosen end-to-end options.
+// c08LastReqTx is the transmit timestamp the SCION client's latest request carried (set by
+// the scion-client world; an on-path adversary sees it).
+var c08LastReqTx time.Time
+
 func c08SCIONReply(tp *simcore.Tape, rp *scionPkt, withAuth, withTS int) []byte {
 	s := rp.scn
 	buffer := gopacket.NewSerializeBuffer()
@@ -781,6 +791,30 @@ func c08SCIONReply(tp *simcore.Tape, rp *scionPkt, withAuth, withTS int) []byte 
 				if tp.Bool(1, 2, "twoslots") {
 					binary.LittleEndian.PutUint64(data[48:], 12345)
 				}
+			}
+			if withTS == 64 && tp.Bool(1, 2, "wellformed") {
+				// a perfectly well-formed SO_TIMESTAMPING_NEW message (as the real forwarder writes it)
+				// whose software timestamp is chosen by the sender: the transmit time the request itself
+				// carried (plus a few nanoseconds), the present instant, or a little before / after it
+				for i := 0; i < 64; i++ {
+					data[i] = 0
+				}
+				binary.LittleEndian.PutUint64(data[0:], 64)
+				binary.LittleEndian.PutUint32(data[8:], 1)
+				binary.LittleEndian.PutUint32(data[12:], 65)
+				ts := time.Now()
+				switch tp.Pick([]uint64{3, 1, 1, 1}, "wfkind") {
+				case 0:
+					if !c08LastReqTx.IsZero() {
+						ts = c08LastReqTx.Add(time.Duration(tp.Intn(4, "wfns")))
+					}
+				case 1:
+					ts = ts.Add(-time.Duration(tp.Range(0, int64(time.Millisecond), "wfback")))
+				case 2:
+					ts = ts.Add(time.Duration(tp.Range(0, int64(time.Second), "wffwd")))
+				}
+				binary.LittleEndian.PutUint64(data[16:], uint64(ts.Unix()))
+				binary.LittleEndian.PutUint64(data[24:], uint64(ts.Nanosecond()))
 			}
 		}
 		e.Options = append(e.Options, &slayers.EndToEndOption{OptType: scion.OptTypeTimestamp, OptData: data})
